@@ -333,6 +333,12 @@ pub struct Env {
     dir: std::path::PathBuf,
 }
 
+impl Drop for Env {
+    fn drop(&mut self) {
+        let _ = std::fs::remove_dir_all(&self.dir);
+    }
+}
+
 pub fn mk_env() -> Env {
     let dir = std::path::Path::new(&verif_dir()).join("scratch").join(format!("c35-{}", std::process::id()));
     std::fs::create_dir_all(&dir).ok();
